@@ -2007,7 +2007,7 @@ def irdl_op_arg_definition(
 
     if any(
         isinstance(o, get_same_variadic_size_option(construct)) for o in op_def.options
-    ):
+    ) and any(isinstance(d, VariadicDef) for _, d in defs):
         num_variadics = sum(isinstance(d, VariadicDef) for _, d in defs)
         variadics_encountered = 0
         num_defs = len(defs)
